@@ -43,6 +43,60 @@ func c14Expected(e zoo14.Entry, v int) string {
 	return fmt.Sprintf(`{"t%d":%d,"a%d":[0,0]}`, e.ID, v, e.ID)
 }
 
+var c14FirstInProcess = true
+
+// c14DecodeFirst runs once per worker process, before the encoder has been used at all: the two
+// packages size and index their caches from address information they compute when first used,
+// so the order of first use is part of the history. A spread of types is decoded, then the
+// encoder is used for the first time, then the same types and their neighbours are decoded again.
+func c14DecodeFirst(c *rt.Ctx, sub int) {
+	if !c14FirstInProcess {
+		return
+	}
+	c14FirstInProcess = false
+	if !c.Cur(sub, "shapes=core\ndecoder used before the encoder's first use") {
+		return
+	}
+	n := len(zoo14.All)
+	step := 1
+	if n > 600 {
+		step = n / 600
+	}
+	pass := func(phase string) {
+		for i := 0; i < n; i += step {
+			e := zoo14.All[i]
+			v := 5000 + e.ID
+			p := e.New()
+			var err error
+			pan, msg, _ := rt.Guard(func() { err = gojson.Unmarshal([]byte(fmt.Sprintf(`{"t%d":%d}`, e.ID, v)), p) })
+			c.Eval(1)
+			if pan || err != nil || e.Get(p) != v {
+				c.Violate(rt.Violation{Monitor: "self-ident", Entry: "decode-first", Kind: "decoded-by-foreign-program", Ctx: phase,
+					Detail: fmt.Sprintf("type T%06d (%s): F=%d want %d err=%v %s", e.ID, phase, e.Get(p), v, err, msg), Input: map[string]any{"type_id": e.ID}, Sub: sub})
+				return
+			}
+		}
+	}
+	pass("before-first-encode")
+	gojson.Marshal(1)
+	gojson.MarshalIndent(map[string]int{"a": 1}, "", " ")
+	pass("after-first-encode")
+	// and the other way round for the encoder: types encoded before and after the decoder's caches grew
+	for i := 0; i < n; i += step {
+		e := zoo14.All[i]
+		v := 6000 + e.ID
+		b, err := gojson.Marshal(e.Val(v))
+		c.Eval(1)
+		if err != nil || string(b) != c14Expected(e, v) {
+			c.Violate(rt.Violation{Monitor: "self-ident", Entry: "decode-first", Kind: "encoded-by-foreign-program", Ctx: "after-decodes",
+				Detail: fmt.Sprintf("type T%06d: got %s (%v) want %s", e.ID, b, err, c14Expected(e, v)), Input: map[string]any{"type_id": e.ID}, Sub: sub})
+			return
+		}
+	}
+	c.Obs("decode_first_processes", 1)
+	c14Drain(c, sub)
+}
+
 func c14Check(c *rt.Ctx, sub int, e zoo14.Entry, phase string) {
 	v := 1000 + e.ID
 	val := e.Val(v)
@@ -528,6 +582,8 @@ func firstWords(s string) string {
 		return "decoder-shared"
 	case strings.Contains(s, "outside the address window"):
 		return "slot-outside-window"
+	case strings.Contains(s, "geometry"):
+		return "geometry-changed"
 	}
 	return "other"
 }
@@ -541,6 +597,7 @@ func init() {
 			return (len(zoo14.All)+per-1)/per + 1
 		},
 		Run: func(c *rt.Ctx) {
+			c14DecodeFirst(c, 400000)
 			if c.Idx == 0 {
 				// first in its (fresh) worker process
 				c14RecursivePairs(c)
